@@ -192,14 +192,14 @@ def run(module, cfg_text=None, cfg_path=None, workers=None, dump=False, coverage
         m = _RE_INV.search(out)
         if m:
             res.violated = m.group(1)
-        elif "is violated" in out or "properties were violated" in out:
-            m2 = re.search(r"property (\S+) is violated", out)
+        elif "is violated" in out or "properties were violated" in out or re.search(r"Temporal propert\S+ .*violated", out):
+            m2 = re.search(r"property (\S+) (?:is|was) violated", out)
             res.violated = m2.group(1) if m2 else "property"
         if res.violated:
             res.counterexample = parse_counterexample(out)
         elif "Error:" in out or proc.returncode not in (0,):
             # deadlock is reported as error too but we disable it by default
-            raise TlcFailure(f"TLC failed on {module} (rc={proc.returncode}):\n" + out[-4000:])
+            raise TlcFailure(f"TLC failed on {module} (rc={proc.returncode}):\n" + "\n".join(l for l in out.splitlines() if l.startswith("Error:"))[:1500] + "\n...\n" + out[-4000:])
         res.ok = res.violated is None
         if coverage:
             for mm in _RE_COV.finditer(out):
